@@ -7,11 +7,15 @@
   strictly lower expert level alone may break the tie).
   Property theorems only; lemmas are in Phil/Proofs/CmdLineLemmas.lean.
 
+  Only the paths of the best class compete in the expert-level tie-break, so `choose_sound` needs no
+  hypothesis on the expert levels at all, and `process_arg` works on de-duplicated target paths
+  (`targetEntries`), so the exact path always wins there (`exact_wins_master`).
+
   Hypotheses that are necessary (negation witnesses at the end of the file):
-  * `exact_wins` needs `targets.Nodup` (finding D12: duplicate target paths refuse the exact path);
-  * the warned case of `choose_sound` and `tie_break_sound` need `experts.length = targets.length`
-    and expert levels that differ by at most 100 (sharp: 101 fails); with a larger spread the key
-    `100*score - expert` lets a path of lower class — even one that does not contain the name — win.
+  * `exact_wins` about `choosePath` itself needs `targets.Nodup` (duplicate target paths given to
+    `choosePath` directly refuse the exact path; `targetEntries_nodup` discharges it for the caller);
+  * the "every other best path has a strictly higher expert level" form of `tie_break_sound` needs
+    `experts.length = targets.length` (a best path without an expert level does not compete).
 -/
 import Phil.Proofs.CmdLineLemmas
 namespace Phil.C14
@@ -120,24 +124,14 @@ theorem choose_sound_unwarned (home : Option Str) (targets : List Str) (experts 
   Phil.choose_sound_unwarned h
 
 /-- Chosen with or without the warning: the chosen index addresses a target path that contains the
-    name, and no target path has a higher class.  For the warned case the expert levels must be
-    aligned with the targets and differ from each other by at most 100. -/
+    name, and no target path has a higher class.  No hypothesis on the expert levels (whatever their
+    number and values): only paths of the best class compete in the tie-break. -/
 theorem choose_sound (home : Option Str) (targets : List Str) (experts : List Int) (src : Str)
-    (i : Nat) (w : Bool) (hlen : experts.length = targets.length)
-    (hspread : ∀ e ∈ experts, ∀ e' ∈ experts, e - e' ≤ 100)
+    (i : Nat) (w : Bool)
     (h : choosePath home targets experts src = .chosen i w) :
     ∃ t, targets[i]? = some t ∧ findSub src t = true ∧
       ∀ t' ∈ targets, getPathScore home src t' ≤ getPathScore home src t :=
-  Phil.choose_sound hlen hspread h
-
-/-- the same with every expert level in `[0, 99]` (the range named in the model) -/
-theorem choose_sound_range (home : Option Str) (targets : List Str) (experts : List Int) (src : Str)
-    (i : Nat) (w : Bool) (hlen : experts.length = targets.length)
-    (hrange : ∀ e ∈ experts, 0 ≤ e ∧ e ≤ 99)
-    (h : choosePath home targets experts src = .chosen i w) :
-    ∃ t, targets[i]? = some t ∧ findSub src t = true ∧
-      ∀ t' ∈ targets, getPathScore home src t' ≤ getPathScore home src t :=
-  Phil.choose_sound hlen (spread_of_range hrange) h
+  Phil.choose_sound h
 
 -- inside-home trailing (class 6) beats outside trailing (class 4) and interior (class 2)
 example : choosePath (some "s".toList) ["t.b".toList, "s.a.b".toList, "s.bc".toList] [0, 0, 0]
@@ -178,11 +172,10 @@ example : choosePath none ["a.b".toList, "zb".toList, "c.b".toList] [1, 0, 1] "b
 /-! ## 7. the expert-level tie-break -/
 
 /-- Chosen with the warning: the chosen index is one of the best-class indices and its expert level
-    is strictly lower than that of every other best-class index (expert levels aligned with the
-    targets and differing by at most 100). -/
+    is strictly lower than that of every other best-class index (one expert level per target; no
+    hypothesis on their values). -/
 theorem tie_break_sound (home : Option Str) (targets : List Str) (experts : List Int) (src : Str)
     (i : Nat) (hlen : experts.length = targets.length)
-    (hspread : ∀ e ∈ experts, ∀ e' ∈ experts, e - e' ≤ 100)
     (h : choosePath home targets experts src = .chosen i true) :
     (∃ t, targets[i]? = some t ∧
         getPathScore home src t = maxNat (targets.map (getPathScore home src))) ∧
@@ -190,60 +183,131 @@ theorem tie_break_sound (home : Option Str) (targets : List Str) (experts : List
       ∀ j t', targets[j]? = some t' →
         getPathScore home src t' = maxNat (targets.map (getPathScore home src)) → j ≠ i →
         ∃ e', experts[j]? = some e' ∧ e < e' := by
-  obtain ⟨hi, e, he, hall⟩ := Phil.tie_break_sound hlen hspread h
+  obtain ⟨hi, e, he, hall⟩ := Phil.tie_break_sound hlen h
   exact ⟨mem_bestOf.1 hi, e, he, fun j t' ht' hs hji => hall j (mem_bestOf.2 ⟨t', ht', hs⟩) hji⟩
 
-/-- the same with every expert level in `[0, 99]` -/
-theorem tie_break_sound_range (home : Option Str) (targets : List Str) (experts : List Int)
-    (src : Str) (i : Nat) (hlen : experts.length = targets.length)
-    (hrange : ∀ e ∈ experts, 0 ≤ e ∧ e ≤ 99)
-    (h : choosePath home targets experts src = .chosen i true) :
-    (∃ t, targets[i]? = some t ∧
-        getPathScore home src t = maxNat (targets.map (getPathScore home src))) ∧
-    ∃ e, experts[i]? = some e ∧
-      ∀ j t', targets[j]? = some t' →
-        getPathScore home src t' = maxNat (targets.map (getPathScore home src)) → j ≠ i →
-        ∃ e', experts[j]? = some e' ∧ e < e' :=
-  tie_break_sound home targets experts src i hlen (spread_of_range hrange) h
-
-/-- What holds in the warned case without any hypothesis: at least two paths share the best class,
-    and the key `100*score - expert` of the chosen index strictly exceeds every other key. -/
+/-- What holds in the warned case without any hypothesis: the best class is positive, at least two
+    paths share it, the chosen path is one of them, and its expert level is strictly lower than the
+    expert level of every other path of the best class that has one. -/
 theorem warned_key_max (home : Option Str) (targets : List Str) (experts : List Int) (src : Str)
     (i : Nat) (h : choosePath home targets experts src = .chosen i true) :
     maxNat (targets.map (getPathScore home src)) ≠ 0 ∧
     2 ≤ (indicesOf (· == maxNat (targets.map (getPathScore home src)))
           (targets.map (getPathScore home src))).length ∧
     ∃ t e, targets[i]? = some t ∧ experts[i]? = some e ∧
+      getPathScore home src t = maxNat (targets.map (getPathScore home src)) ∧
       ∀ j t' e', targets[j]? = some t' → experts[j]? = some e' → j ≠ i →
-        100 * (getPathScore home src t' : Int) - e' < 100 * (getPathScore home src t : Int) - e :=
+        getPathScore home src t' = maxNat (targets.map (getPathScore home src)) → e < e' :=
   Phil.warned_key_max h
+
+/-- The tie-break characterised: the argument is accepted with the warning for index `i` exactly
+    when the best class is positive, at least two paths have it, `i` is one of them and its expert
+    level is strictly lower than the expert level of every other one. -/
+theorem chosen_warned_iff (home : Option Str) (targets : List Str) (experts : List Int) (src : Str)
+    (i : Nat) :
+    choosePath home targets experts src = .chosen i true ↔
+      maxNat (targets.map (getPathScore home src)) ≠ 0 ∧
+      2 ≤ (indicesOf (· == maxNat (targets.map (getPathScore home src)))
+            (targets.map (getPathScore home src))).length ∧
+      (∃ t, targets[i]? = some t ∧
+        getPathScore home src t = maxNat (targets.map (getPathScore home src))) ∧
+      ∃ e, experts[i]? = some e ∧
+        ∀ j t', targets[j]? = some t' →
+          getPathScore home src t' = maxNat (targets.map (getPathScore home src)) → j ≠ i →
+          ∀ e', experts[j]? = some e' → e < e' := by
+  rw [Phil.chosen_warned_iff]
+  constructor
+  · rintro ⟨h0, h2, hi, e, he, hall⟩
+    exact ⟨h0, h2, mem_bestOf.1 hi, e, he,
+      fun j t' ht' hs hji => hall j (mem_bestOf.2 ⟨t', ht', hs⟩) hji⟩
+  · rintro ⟨h0, h2, hi, e, he, hall⟩
+    refine ⟨h0, h2, mem_bestOf.2 hi, e, he, ?_⟩
+    intro j hj hji
+    obtain ⟨t', ht', hs⟩ := mem_bestOf.1 hj
+    exact hall j t' ht' hs hji
 
 example : choosePath none ["a.b".toList, "zb".toList, "c.b".toList] [2, 0, 1] "b".toList =
     .chosen 2 true := by decide
 
-/-! ## 8. negation witnesses -/
+/-! ## 8. the target list of `process_arg` -/
 
-/-- finding D12: with duplicate target paths the exact path is refused as ambiguous, so `Nodup` in
-    `exact_wins` is necessary. -/
+/-- `process_arg` works on `targetEntries`: the definition paths with further occurrences of the same
+    path (a `.multiple` definition given several times) dropped.  Its paths are pairwise distinct. -/
+theorem targetEntries_nodup (objs : List Obj) (experts : List Int) :
+    ((targetEntries objs experts).map (·.1)).Nodup :=
+  Phil.targetEntries_nodup objs experts
+
+/-- every entry is a definition path together with the expert level at the same position -/
+theorem targetEntries_subset (objs : List Obj) (experts : List Int) (x : Str × Int)
+    (h : x ∈ targetEntries objs experts) : x ∈ ((allDefinitions objs).map (·.1)).zip experts :=
+  Phil.targetEntries_subset objs experts x h
+
+/-- no path is lost (one expert level per definition, as `expertLevels` provides) -/
+theorem mem_targetEntries_paths (objs : List Obj) (experts : List Int)
+    (hlen : experts.length = (allDefinitions objs).length) (p : Str) :
+    p ∈ (targetEntries objs experts).map (·.1) ↔ p ∈ (allDefinitions objs).map (·.1) :=
+  Phil.mem_targetEntries_paths objs experts hlen p
+
+theorem expertLevels_length (objs : List Obj) :
+    (expertLevels objs).length = (allDefinitions objs).length :=
+  Phil.expertLevels_length objs
+
+/-- so an exact path among the de-duplicated targets is chosen, without a warning … -/
+theorem exact_wins_targetEntries (home : Option Str) (objs : List Obj) (experts : List Int) (src : Str)
+    (hmem : src ∈ (targetEntries objs experts).map (·.1)) :
+    ∃ i, choosePath home ((targetEntries objs experts).map (·.1))
+        ((targetEntries objs experts).map (·.2)) src = .chosen i false ∧
+      ((targetEntries objs experts).map (·.1))[i]? = some src :=
+  Phil.exact_wins_targetEntries home objs experts src hmem
+
+/-- … in particular the full path of any definition of the master, duplicates or not. -/
+theorem exact_wins_master (home : Option Str) (objs : List Obj) (src : Str)
+    (hmem : src ∈ (allDefinitions objs).map (·.1)) :
+    ∃ i, choosePath home ((targetEntries objs (expertLevels objs)).map (·.1))
+        ((targetEntries objs (expertLevels objs)).map (·.2)) src = .chosen i false ∧
+      ((targetEntries objs (expertLevels objs)).map (·.1))[i]? = some src :=
+  Phil.exact_wins_master home objs src hmem
+
+-- a master with the definition `d` twice: one target entry, and `d` addresses it
+example : targetEntries [.defn { name := "d".toList } [], .defn { name := "d".toList } []] [0, 0]
+    = [("d".toList, 0)] := by decide
+example : choosePath none ["d".toList] [0] "d".toList = .chosen 0 false := by decide
+
+/-! ## 9. witnesses -/
+
+/-- with duplicate target paths handed to `choosePath` directly the exact path is refused as
+    ambiguous, so `Nodup` in `exact_wins` is necessary (`targetEntries_nodup` provides it). -/
 theorem duplicate_paths_refuse_exact :
     choosePath none ["d".toList, "d".toList] [0, 0] "d".toList = .ambiguous [0, 1] :=
   Phil.duplicate_paths_refuse_exact
 
-/-- expert levels 101 apart: the partial match `zb` (class 3) is chosen over the two whole-component
-    matches (class 4), so the spread hypothesis of `choose_sound` / `tie_break_sound` is necessary. -/
-theorem wide_expert_spread_picks_worse_class :
+/-- expert levels 101 apart (formerly: the partial match `zb` of class 3 was chosen): the partial
+    match does not compete, the two whole-component matches tie and the argument is refused. -/
+theorem wide_expert_spread_stays_in_best_class :
     choosePath none ["a.b".toList, "c.b".toList, "zb".toList] [101, 101, 0] "b".toList =
-      .chosen 2 true := by decide
+      .ambiguous [0, 1] := by decide
 
-/-- expert levels far apart: a path that does not even contain the name is chosen. -/
-theorem wide_expert_spread_picks_non_match :
+/-- the same spread with distinct levels among the best class: the lower one wins, not `zb` -/
+theorem wide_expert_spread_picks_lowest_of_best :
+    choosePath none ["a.b".toList, "c.b".toList, "zb".toList] [101, 100, 0] "b".toList =
+      .chosen 1 true := by decide
+
+/-- expert levels far apart (formerly: `q`, which does not contain the name, was chosen): refused as
+    ambiguous between the two matches. -/
+theorem wide_expert_spread_ignores_non_match :
     choosePath none ["a.b".toList, "c.b".toList, "q".toList] [500, 500, 0] "b".toList =
-      .chosen 2 true := by decide
+      .ambiguous [0, 1] := by decide
 
-/-- too few expert levels: the key list is truncated and a worse class is chosen, so
-    `experts.length = targets.length` is necessary. -/
-theorem short_experts_pick_worse_class :
-    choosePath none ["zb".toList, "a.b".toList, "c.b".toList] [0] "b".toList = .chosen 0 true := by
+/-- too few expert levels (formerly: `zb` of a worse class was chosen): nothing of the best class has
+    a level, the argument is refused as ambiguous between the best-class paths. -/
+theorem short_experts_stay_in_best_class :
+    choosePath none ["zb".toList, "a.b".toList, "c.b".toList] [0] "b".toList = .ambiguous [1, 2] := by
   decide
+
+/-- too few expert levels, second form: the best-class path without a level does not compete, so the
+    other one is chosen although nothing says its level is lower — `experts.length = targets.length`
+    in `tie_break_sound` is necessary (the chosen path still is of the best class: `choose_sound`). -/
+theorem short_experts_skip_unlevelled :
+    choosePath none ["a.b".toList, "c.b".toList] [0] "b".toList = .chosen 0 true := by decide
 
 end Phil.C14
